@@ -8,6 +8,31 @@ EV=/tmp/ev/$ID
 OUT=/verif/seeded/$ID
 mkdir -p /tmp/ev "$OUT"
 git -C /repo diff --quiet || { echo "/repo dirty"; exit 2; }
+if [ -n "${RECHECK_ONLY:-}" ] && [ -f "$OUT/meta.json" ]; then
+  # the change was confirmed before: only re-run the checks against it and update checks_quick in meta.json
+  cd /verif
+  git -C /repo apply "$OUT/patch.diff" || exit 2
+  RES=""
+  for c in "$@"; do
+    o=$(./check "$c" quick 2>&1); rc=$?
+    v=$(echo "$o" | grep VIOLATION | head -1 | cut -c1-300 | sed 's/"/'"'"'/g')
+    echo "check $c rc=$rc :: $v"
+    RES="$RES$c|rc=$rc $v
+"
+  done
+  git -C /repo checkout -- . && git -C /repo clean -fdq
+  python3 - "$ID" "$RES" <<'PY'
+import json,sys
+id_,verd=sys.argv[1:3]
+p=f'/verif/seeded/{id_}/meta.json'
+m=json.load(open(p))
+for line in verd.splitlines():
+    if '|' in line:
+        c,v=line.split('|',1); m.setdefault('checks_quick',{})[c]=v
+json.dump(m,open(p,'w'),indent=1)
+PY
+  exit 0
+fi
 git -C /repo worktree remove --force "$EV" 2>/dev/null
 git -C /repo worktree add -q "$EV" HEAD || exit 2
 cp "$SRC/patch.diff" "$OUT/patch.diff"; cp "$SRC/demo.rs" "$OUT/demo.rs"; cp "$SRC/notes.md" "$OUT/notes.md" 2>/dev/null
